@@ -28,6 +28,9 @@ def items(tier):
         out.append({"kind": "nomutation", "sc": sc, "ec": ec, "is_sorted": True, "heavy": tier == "thorough" or (sc, ec) == ("neg", "pos")})
         out.append({"kind": "nomutation", "sc": sc, "ec": ec, "is_sorted": False, "heavy": tier == "thorough"})
         out.append({"kind": "nomutation", "sc": sc, "ec": ec, "is_sorted": True, "heavy": False, "easy": [0, 0]})   # no easy samples: rescaling is the identity
+    for sc, ec in (CFGS if tier == "thorough" else CFGS[1:3]):
+        for metric in (("fnr", "tpr") if tier == "quick" else ("fnr", "tpr", "fpr", "topr")):
+            out.append({"kind": "points_arg", "sc": sc, "ec": ec, "metric": metric, "npts": 3})
     heavy = tier == "thorough"
     for i in range(22 if heavy else 19):
         out.append({"kind": "history2", "first": i, "heavy": heavy})
@@ -190,6 +193,32 @@ def run_nomutation(h, sc, ec, is_sorted, heavy, easy=(1, 2)):
                 (S.nb_easy_pos, S.nb_easy_neg, S.score_class, S.equal_class) == scal and S.pos is snaps["S.pos"][0] and S.neg is snaps["S.neg"][0])
     if is_sorted:
         h.check("is_sorted=True: the object aliases the caller's arrays (documented fast path), still unmodified", S.pos is pa and S.neg is na)
+
+
+def run_points_arg(h, sc, ec, metric, npts):
+    """threshold_at_metric with caller-owned ndarrays for `target` and `points` (points in ANY order, ties allowed):
+    neither array is modified, and asking again returns the same thresholds"""
+    S, pos, neg, pa, na = _S(h, sc, ec, is_sorted=True, kp=1, kn=2)
+    pts = h.array(h.reals("q", npts))
+    R, _ = _arg(h, "rr", (2,), float_atom=False)
+    snap_p, snap_r = h.snapshot(pts), h.snapshot(R)
+    h.policy(gather="fork", sort="fork")
+    def ask():
+        # points out of order are outside invert_pl_function's documented domain (x increasing): several crossings per target make
+        # the result ragged and NumPy refuses it with ValueError - accepted; the arrays must be left alone all the same
+        try:
+            return h.cells(S.threshold_at_metric(R, metric, points=pts))
+        except ValueError:
+            return None
+
+    first = ask()
+    h.check("threshold_at_metric(points=ndarray): caller's points array untouched (order included)", h.unchanged(snap_p, pts))
+    h.check("threshold_at_metric(points=ndarray): caller's target array untouched", h.unchanged(snap_r, R))
+    again = ask()
+    h.check("threshold_at_metric(points=ndarray): repeating the query returns identical results",
+            (first is None and again is None) or (first is not None and again is not None and _eqlists(h, first, again)))
+    h.check("threshold_at_metric(points=ndarray): arrays still untouched after the second call", h.unchanged(snap_p, pts) and h.unchanged(snap_r, R))
+    h.check("threshold_at_metric(points=ndarray): scores untouched", h.unchanged(S._verif_pre[0], pa) and h.unchanged(S._verif_pre[1], na))
 
 
 def _fresh_pair(h):
